@@ -298,6 +298,9 @@ func runC20(w *World, r *Report) {
 	r.Notes = append(r.Notes, fmt.Sprintf("compile family: %d functions", nfam))
 
 	// ---- gates
+	r.Rule("C20.node-options-not-rewritten", "Compile leaves the compile options stored with a node alone (shared with C01.nested-options-own): the same construction compiled twice, or the same nested graph in two parents, gives the same nested runnable", 6)
+	compileOptionsOwned(w, r, "C20.node-options-not-rewritten")
+
 	r.Rule("C20.gates", "each compile-time validation blocks the success return of graph.compile", 6)
 	var success []*ssa.Return
 	instrs(gcompile, func(in ssa.Instruction) {
